@@ -9,7 +9,7 @@ handle codes: 0 Entities, 1 Read<LazyUpdate>, 10+t ReadStorage<C_t>, 20+t WriteS
 Encoding: integers `code n x1..xn` per item (see coq/theories/Checkers/DispatchChk.v)."""
 import itertools
 
-NCOMP = 6
+NCOMP = 8
 ALL_HANDLES = [0, 1] + [10 + t for t in range(NCOMP)] + [20 + t for t in range(NCOMP)]
 POOLS = [1, 2, 3, 4, 6, 8, 12, 16, 24, 32]
 
